@@ -1,5 +1,6 @@
 """Per-property run: select functions, verify, classify refutations (replay / known findings),
 write evidence, print VIOLATION / KNOWN-FINDING lines, return the exit code."""
+import re
 import json
 import os
 import sys
@@ -31,6 +32,9 @@ def match_finding(findings, prop, r):
         if f['obligation'] != r['name']:
             continue
         if f.get('path') is not None and f['path'] != trail_sig(r['trail']):
+            continue
+        if f.get('detail_regex') is not None and not re.search(f['detail_regex'], r.get('reason') or ''):
+            # evaluated / bounded items: the finding covers only the recorded failing inputs
             continue
         return f
     return None
